@@ -388,8 +388,22 @@ def component_ops(ctx, scratch):
     return ops
 
 
+def _sweep_old_trees():
+    """remove C09's own alternative build trees that were not touched for 3 hours (seeded / mutation runs)"""
+    import time
+    base = os.path.join(vlib.VERIF, ".build")
+    try:
+        for d in os.listdir(base):
+            p = os.path.join(base, d)
+            if d.startswith("c09alt_") and p != vlib.BUILD and time.time() - os.path.getmtime(p) > 3 * 3600:
+                shutil.rmtree(p, ignore_errors=True)
+    except OSError:
+        pass
+
+
 def run(ctx):
     ctx.level = "other"
+    _sweep_old_trees()
     ctx.assumptions += [
         "PROVED (Lean): codec round trip for every schema/value; write schema = read schema for every restartable class, factory and the top-level dump (generated, decide); not-stored subgrid members recomputed by the same expression; limiter array reset at the end of every step; identical continuation for every deterministic step function preserving these facts, for every stop point and every chain of stop/restart cycles",
         "NOT PROVED, validated by the experiments of this run: that stored + derived + transient members are everything a step reads (the step function of continuation_identical_partial is abstract); the other not-stored members (active buffers, largest-buffer cache, hydro task indices, task tables, queues) are compared by digest only",
